@@ -18,7 +18,21 @@ LAYOUT_OK = "reparse=ok tokens=ok comments=ok"
 # embedded foreign code (`embed (…) lang{{{ … }}}`: one multi-line token) are trimmed too — a token text changes.
 # Verified per case by the harness: every differing token is multi-line and equal once line ends are trimmed.
 KEY_EMBED = "render:strip_trailing_whitespace:inside-embed-content"
-SIG_EMBED = "reparse=ok tokens=BAD:embed-trailing-ws comments=ok"
+# The lexer reports the token after an embed-content token that ENDS in a newline at (line-1, beyond the end of that
+# line) instead of (line, 1); `Formatter::unformat_embed_items` rebuilds gaps from token positions and writes blanks
+# there. Verified per case: the content token grew by blanks after its last newline only, and some token of the
+# source has (line, column) != the position recomputed from its byte offset.
+KEY_EMBED_POS = "lexer:position-after-embed-content-ending-in-newline"
+SIGS = {"embed-trailing-ws": KEY_EMBED, "embed-token-position": KEY_EMBED_POS}
+
+
+def keys_of(v):
+    """'reparse=ok tokens=BAD:embed-trailing-ws+embed-token-position comments=ok' -> the keys explaining it."""
+    f = v.split(" ")
+    if len(f) != 3 or f[0] != "reparse=ok" or f[2] != "comments=ok" or not f[1].startswith("tokens=BAD:"):
+        return None
+    kinds = f[1][len("tokens=BAD:"):].split("+")
+    return [SIGS[k] for k in kinds] if all(k in SIGS for k in kinds) else None
 
 
 def process(ctx, res, label, budget):
@@ -42,10 +56,12 @@ def process(ctx, res, label, budget):
         elif k == "layout":
             ctx.distinct(op)
             if i != o:
-                key = KEY_EMBED if i == SIG_EMBED else None
-                if key and listed(ctx, key):
-                    ctx.violation("", "", key=key, kind="impl!=oracle")
+                ks = keys_of(i)
+                if ks and all(listed(ctx, k) for k in ks):
+                    for k in ks:
+                        ctx.violation("", "", key=k, kind="impl!=oracle")
                     continue
+                key = next((k for k in (ks or []) if not listed(ctx, k)), None)
                 if budget[1] > 0:
                     budget[1] -= 1
                     parts = op.split(" ")
